@@ -71,6 +71,8 @@ class UniformPrior(Prior, Uniform):
     def __init__(self, a, b, validate_args=None, transform=None):
         TModule.__init__(self)
         Uniform.__init__(self, a, b, validate_args=validate_args)
+        # like the other priors: make the parameters buffers, so that they are saved / loaded with state_dicts
+        _bufferize_attributes(self, ("low", "high"))
         self._transform = transform
 
     def expand(self, batch_shape):
